@@ -268,11 +268,21 @@ Definition bad_1301 (model : tstate) (bytes : list byte) (op : op) : bool :=
   | _ => false
   end.
 
+(* C08: a size change makes the cursor and the saved cursor unknown, whatever
+   was believed before - holds from every state (C08_forgets_on_resize), so it
+   is judged on every history *)
+Definition bad_802 (reported : tstate) (op : op) : bool :=
+  match op with
+  | SetSize _ => negb (match ts_cur reported, ts_saved reported with None, None => true | _, _ => false end)
+  | _ => false
+  end.
+
 (* clause codes: 101 ill-formed/unknown control function or lexer not at
    rest; 102 glyphs shown differ from the elements requested; 103 glyphs
    shown by an operation that writes none; 201 glyph not at the requested
    position; 301 display differs from canvas after draw; 401 draw did not
    transmit exactly the changed cells; 801 reported-known value untrue;
+   802 a position still reported as known after a size change;
    399 (marker only) bottom-right cell written on an immediate-wrap
    terminal; 901 erase cleared the wrong cells / wrong rendition / moved cursor;
    1101 mode not as last requested or capability not respected;
@@ -297,6 +307,7 @@ Definition oracle_step (cfg : vtcfg) (beh : behaviour) (adopt : pt -> pt -> pt)
       let f := fail_if (bad_901 v v' op) 901 i f in
       let f := fail_if (bad_1101 beh v v' (o_bytes o) op) 1101 i f in
       let f := fail_if (bad_1301 (os_model s) (o_bytes o) op) 1301 i f in
+      let f := fail_if (bad_802 (o_st o) op) 802 i f in
       mkO v' (o_st o) (fst (step beh (os_model s) op))
           (next_expect op (vsize v') (snd pr)) (os_frame s) (i + 1) f
   | ODraw c =>
@@ -316,6 +327,10 @@ Definition oracle_step (cfg : vtcfg) (beh : behaviour) (adopt : pt -> pt -> pt)
       let f := fail_if (check_text && sized && negb (trace_is tr (changed_cells prev c))) 401 i f in
       let f := fail_if (same_size && list_eqb element_eqb (grid (os_frame s)) (grid c) &&
                         negb (no_bytes (o_bytes o))) 401 i f in
+      (* C11: a draw requests no mode; whatever was last requested stays in effect *)
+      let f := fail_if (negb (Bool.eqb (vis v') (vis v) && Bool.eqb (m1000 v') (m1000 v) &&
+                              Bool.eqb (m1003 v') (m1003 v) && Bool.eqb (altbuf v') (altbuf v) &&
+                              bytes_eqb (title v') (title v))) 1101 i f in
       mkO v' (o_st o) (fst (run beh (os_model s) (draw_ops (mkScreen (os_frame s)) c))) None c (i + 1) f
   end.
 
